@@ -873,7 +873,11 @@ def getattr_(ip, o, attr):
             if key in ip.registry.model_properties:
                 return ip.registry.models[key](ip, [o], {})
             return I.BoundMethod(o, ('model', key))
-        raise PyRaise(ExcVal('AttributeError', (attr,)))
+        if attr.startswith('__') or getattr(ip.registry, 'closed_records', None) and o.cls in ip.registry.closed_records:
+            raise PyRaise(ExcVal('AttributeError', (attr,)))
+        # an abstract record (contract-side stand-in for a library object): an attribute the contract does not describe is a gap of
+        # the contract, not an AttributeError of the code
+        raise Unsupported('attribute `%s` of the abstract record %s is not described by the contract' % (attr, o.cls))
     if isinstance(o, I.SuperProxy):
         cls = o.obj.cls
         mro = cls.mro()
